@@ -9,7 +9,7 @@ from props.c02 import bits
 PROPS = ('GambitV.Props.C05', 'GambitV.C05')
 TIE = [('GambitV.Tie.Metric', 'GambitV.Tie.Metric'), ('GambitV.Tie.PyChunks', 'GambitV.Tie.Py'), ('GambitV.Tie.PyPropsC05', 'GambitV.Tie.Py'), ('GambitV.Tie.PyBulk', 'GambitV.Tie.Py'), ('GambitV.Tie.PyPairwise', 'GambitV.Tie.Py')]
 RULE = ('(query signatures, reference signatures, container in {SignatureArray, SignatureArray window of a larger values array (from_arrays), SignatureList, plain list, HDF5Signatures}, dtype, '
-        'chunk size in 1..n+2 or None, ref_indices (None / permutation / with repeats / subset), caller out-buffer (none / contiguous / '
+        'chunk size in 1..n+2 or None, ref_indices (None / permutation / with repeats / subset / non-decreasing runs with repeats and gaps), caller out-buffer (none / contiguous / '
         'strided view with sentinels), threads 1..16) for jaccarddist_matrix; same for jaccarddist_array and jaccarddist_pairwise '
         '(square / condensed, indices, out). The Lean model is instantiated with dist := table of the real two-signature '
         'jaccarddist bit patterns, so only the plumbing is judged. Non-trivial = distinct case with >= 2 references, >= 1 non-empty '
@@ -333,14 +333,27 @@ def run(ctx):
 				rs = rand_sigs(rng, nr)
 				qs = rand_sigs(rng, rng.choice([0, 1, 1, 2, 3, 5]))
 				ir = rng.random()
-				if ir < 0.4:
+				if ir < 0.35:
 					ridx = None
-				elif ir < 0.6:
+				elif ir < 0.5:
 					ridx = rng.sample(range(nr), nr)
-				elif ir < 0.8:
+				elif ir < 0.65:
 					ridx = [rng.randrange(nr) for _ in range(rng.randint(0, nr + 3))] if nr else []
-				else:
+				elif ir < 0.8 or nr < 3:
 					ridx = sorted(rng.sample(range(nr), rng.randint(0, nr)))
+				else:
+					# non-decreasing runs with repeats and gaps; half of them with as many repeats as skipped positions, so that the
+					# selection spans exactly its own length without being a run of consecutive indices ([4,5,5,7])
+					m = rng.randint(3, min(7, nr + 1))
+					steps = ([0, 2] + [1] * (m - 3)) if rng.random() < 0.5 else [rng.choice([0, 1, 1, 2]) for _ in range(m - 1)]
+					rng.shuffle(steps)
+					a = rng.randrange(max(1, nr - sum(steps)))
+					ridx = [a]
+					for d in steps:
+						ridx.append(ridx[-1] + d)
+					ridx = [i for i in ridx if i < nr]
+					if rng.random() < 0.3:      # embedded in a longer selection: the pattern falls into one chunk for some chunk sizes only
+						ridx = [rng.randrange(nr) for _ in range(rng.randint(0, 3))] + ridx + [rng.randrange(nr) for _ in range(rng.randint(0, 3))]
 				n_eff = nr if ridx is None else len(ridx)
 				chunk = rng.choice([None, 1, 2, 3, n_eff, n_eff + 1, n_eff + 2, max(1, n_eff - 1), 1000])
 				if chunk == 0:
